@@ -3,6 +3,15 @@ package main
 // Source-shape facts (tie T2) for the UCI concurrency model: the protocol model in
 // lean/Clemens/Model/UciConc.lean is parametrised by the order of events in the handlers;
 // these facts are extracted from the source text with go/ast on every run.
+//
+// The extraction is by a small abstract interpretation, not by comparing statement texts: every handler is turned
+// into its sequence of protocol events (lock, deferred unlock, guard with the truth table of its condition over the
+// abstract state, flag writes, context creation, storing the cancel function, spawning the search goroutine, the
+// search call, the bestmove / readyok prints, cancel calls).  Calls of functions and methods of the same package are
+// inlined, a guard written as `if c { …; return }` or as a trailing `if !c { rest }` is the same guard, locals and
+// parameter names do not matter.  A statement that touches the protocol state in a way the interpreter does not
+// understand makes the facts of that handler false (the proof obligation then fails and the check searches for a
+// failing dialogue).
 
 import (
 	"bytes"
@@ -13,6 +22,7 @@ import (
 	"go/token"
 	"os"
 	"path/filepath"
+	"sort"
 	"strings"
 )
 
@@ -23,169 +33,1008 @@ func repoRoot() string {
 	return "/repo"
 }
 
-func parseFile(fset *token.FileSet, rel string) *ast.File {
-	f, err := parser.ParseFile(fset, filepath.Join(repoRoot(), rel), nil, 0)
-	if err != nil {
-		return nil
-	}
-	return f
-}
-
 func nodeStr(fset *token.FileSet, n ast.Node) string {
 	var buf bytes.Buffer
 	printer.Fprint(&buf, fset, n)
 	return strings.Join(strings.Fields(buf.String()), " ")
 }
 
-func findFunc(f *ast.File, name string) *ast.FuncDecl {
-	if f == nil {
-		return nil
+// pkgSrc: all non-test, non-hook files of one package directory
+type pkgSrc struct {
+	fset  *token.FileSet
+	funcs map[string]*ast.FuncDecl // by name (methods by their bare name: the packages looked at have no clashes that matter)
+}
+
+func loadPkg(fset *token.FileSet, rel string) *pkgSrc {
+	p := &pkgSrc{fset: fset, funcs: map[string]*ast.FuncDecl{}}
+	files, _ := filepath.Glob(filepath.Join(repoRoot(), rel, "*.go"))
+	sort.Strings(files)
+	for _, f := range files {
+		if strings.HasSuffix(f, "_test.go") || strings.HasSuffix(f, "_verif.go") {
+			continue
+		}
+		af, err := parser.ParseFile(fset, f, nil, 0)
+		if err != nil {
+			continue
+		}
+		for _, d := range af.Decls {
+			if fd, ok := d.(*ast.FuncDecl); ok && fd.Body != nil {
+				p.funcs[fd.Name.Name] = fd
+			}
+		}
 	}
-	for _, d := range f.Decls {
-		if fd, ok := d.(*ast.FuncDecl); ok && fd.Name.Name == name && fd.Body != nil {
-			return fd
+	return p
+}
+
+// stateNames: the constants of pkg/uci/state (the abstract values of the flag)
+func stateNames(fset *token.FileSet) []string {
+	var names []string
+	files, _ := filepath.Glob(filepath.Join(repoRoot(), "pkg/uci/state", "*.go"))
+	for _, f := range files {
+		if strings.HasSuffix(f, "_test.go") {
+			continue
+		}
+		af, err := parser.ParseFile(fset, f, nil, 0)
+		if err != nil {
+			continue
+		}
+		for _, d := range af.Decls {
+			gd, ok := d.(*ast.GenDecl)
+			if !ok || gd.Tok != token.CONST {
+				continue
+			}
+			for _, sp := range gd.Specs {
+				for _, n := range sp.(*ast.ValueSpec).Names {
+					if n.Name != "_" {
+						names = append(names, n.Name)
+					}
+				}
+			}
+		}
+	}
+	return names
+}
+
+// ---- events -------------------------------------------------------------------------------------------------------
+
+type ev struct {
+	kind string // lock deferUnlock unlock guard set mkctx storeCancel spawn search printBest printReady callCancel deferCancel call nested other ret
+	arg  string // set: the constant; guard: truth table; call: callee; other: text
+	sub  []ev   // spawn / nested
+}
+
+func (e ev) String() string {
+	s := e.kind
+	if e.arg != "" {
+		s += "(" + e.arg + ")"
+	}
+	if len(e.sub) > 0 {
+		var parts []string
+		for _, x := range e.sub {
+			parts = append(parts, x.String())
+		}
+		s += "{" + strings.Join(parts, " ") + "}"
+	}
+	return s
+}
+
+type interp struct {
+	p       *pkgSrc
+	states  []string
+	cancels map[string]bool // names bound to a cancel function
+	ctxs    map[string]bool // names bound to the cancellable context
+	locals  map[string]ast.Expr
+	depth   int
+}
+
+func (in *interp) str(n ast.Node) string { return nodeStr(in.p.fset, n) }
+
+var relevantAtoms = []string{".state.Set(", ".isWorking.", "searchCancel", ".Search(", "\"bestmove", "\"readyok", "context.With", "StartSearch(", "StopSearch(", "NewPosition(", "IsReady("}
+
+func (in *interp) relevantText(s string) bool {
+	for _, a := range relevantAtoms {
+		if strings.Contains(s, a) {
+			return true
+		}
+	}
+	for c := range in.cancels {
+		if strings.Contains(s, c+"(") {
+			return true
+		}
+	}
+	return false
+}
+
+// callee of a call when it is a function or method of the same package
+func (in *interp) localCallee(c *ast.CallExpr) *ast.FuncDecl {
+	switch f := c.Fun.(type) {
+	case *ast.Ident:
+		return in.p.funcs[f.Name]
+	case *ast.SelectorExpr:
+		if id, ok := f.X.(*ast.Ident); ok && (id.Name == "g" || id.Name == "s") {
+			// a method on the receiver; fields holding function values (g.searchCancel) are not declared functions
+			return in.p.funcs[f.Sel.Name]
 		}
 	}
 	return nil
 }
 
-func stmts(fset *token.FileSet, fd *ast.FuncDecl) []string {
-	if fd == nil {
-		return nil
+// inline walks a same-package callee with the cancel / context names carried over to its parameters
+func (in *interp) inline(c *ast.CallExpr, fd *ast.FuncDecl) []ev {
+	if in.depth > 4 {
+		return []ev{{kind: "other", arg: "inlining too deep: " + in.str(c)}}
 	}
-	var out []string
-	for _, s := range fd.Body.List {
-		out = append(out, nodeStr(fset, s))
+	saveC, saveX, saveL := in.cancels, in.ctxs, in.locals
+	nc, nx := map[string]bool{}, map[string]bool{}
+	for k := range saveC {
+		if strings.Contains(k, ".") {
+			nc[k] = true
+		}
+	}
+	i := 0
+	for _, fl := range fd.Type.Params.List {
+		for _, n := range fl.Names {
+			if i < len(c.Args) {
+				a := in.str(c.Args[i])
+				if saveC[a] {
+					nc[n.Name] = true
+				}
+				if saveX[a] {
+					nx[n.Name] = true
+				}
+			}
+			i++
+		}
+	}
+	in.cancels, in.ctxs, in.locals = nc, nx, map[string]ast.Expr{}
+	in.depth++
+	evs := in.walk(fd.Body.List, true)
+	in.depth--
+	in.cancels, in.ctxs, in.locals = saveC, saveX, saveL
+	return evs
+}
+
+func hasRelevant(evs []ev) bool {
+	for _, e := range evs {
+		switch e.kind {
+		case "print", "ret":
+		default:
+			return true
+		}
+	}
+	return false
+}
+
+func endsWithReturn(evs []ev) bool { return len(evs) > 0 && evs[len(evs)-1].kind == "ret" }
+
+// callEvents: the events of one call expression used as a statement (or on the right of an assignment)
+func (in *interp) callEvents(c *ast.CallExpr) ([]ev, bool) {
+	s := in.str(c)
+	fun := in.str(c.Fun)
+	switch {
+	case strings.HasSuffix(fun, ".isWorking.Lock"):
+		return []ev{{kind: "lock"}}, true
+	case strings.HasSuffix(fun, ".isWorking.Unlock"):
+		return []ev{{kind: "unlock"}}, true
+	case strings.HasSuffix(fun, ".state.Set") && len(c.Args) == 1:
+		return []ev{{kind: "set", arg: strings.TrimPrefix(in.str(c.Args[0]), "state.")}}, true
+	case in.cancels[fun]:
+		return []ev{{kind: "callCancel"}}, true
+	case fun == "fmt.Printf" || fun == "fmt.Println" || fun == "fmt.Print":
+		if len(c.Args) > 0 {
+			a := in.str(c.Args[0])
+			if strings.HasPrefix(a, "\"bestmove") {
+				return []ev{{kind: "printBest"}}, true
+			}
+			if a == "\"readyok\"" || a == "\"readyok\\n\"" {
+				return []ev{{kind: "printReady"}}, true
+			}
+		}
+		return []ev{{kind: "print"}}, true
+	case strings.HasSuffix(fun, ".Search") && strings.Contains(fun, "search"):
+		ok := len(c.Args) > 0 && in.ctxs[in.str(c.Args[0])]
+		arg := "ctx"
+		if !ok {
+			arg = "otherctx"
+		}
+		return []ev{{kind: "search", arg: arg}}, true
+	}
+	if fd := in.localCallee(c); fd != nil {
+		sub := in.inline(c, fd)
+		if hasRelevant(sub) {
+			// drop the callee's own trailing return
+			var out []ev
+			for _, e := range sub {
+				if e.kind != "ret" {
+					out = append(out, e)
+				}
+			}
+			return out, true
+		}
+		return nil, true
+	}
+	if in.relevantText(s) {
+		return []ev{{kind: "other", arg: s}}, true
+	}
+	return nil, false
+}
+
+func (in *interp) walk(list []ast.Stmt, top bool) []ev {
+	var out []ev
+	for idx, st := range list {
+		last := idx == len(list)-1
+		switch x := st.(type) {
+		case *ast.ExprStmt:
+			if c, ok := x.X.(*ast.CallExpr); ok {
+				evs, _ := in.callEvents(c)
+				out = append(out, evs...)
+				continue
+			}
+			if in.relevantText(in.str(x)) {
+				out = append(out, ev{kind: "other", arg: in.str(x)})
+			}
+		case *ast.DeferStmt:
+			fun := in.str(x.Call.Fun)
+			switch {
+			case strings.HasSuffix(fun, ".isWorking.Unlock"):
+				out = append(out, ev{kind: "deferUnlock"})
+			case in.cancels[fun]:
+				out = append(out, ev{kind: "deferCancel"})
+			default:
+				if in.relevantText(in.str(x)) {
+					out = append(out, ev{kind: "other", arg: in.str(x)})
+				}
+			}
+		case *ast.AssignStmt:
+			handled := false
+			if len(x.Rhs) == 1 {
+				if c, ok := x.Rhs[0].(*ast.CallExpr); ok {
+					fun := in.str(c.Fun)
+					if fun == "context.WithCancel" && len(x.Lhs) == 2 {
+						in.ctxs[in.str(x.Lhs[0])] = true
+						in.cancels[in.str(x.Lhs[1])] = true
+						out = append(out, ev{kind: "mkctx", arg: in.str(c.Args[0])})
+						handled = true
+					} else {
+						evs, known := in.callEvents(c)
+						if known {
+							out = append(out, evs...)
+							handled = true
+						}
+					}
+				}
+				if !handled && len(x.Lhs) == 1 {
+					l, r := in.str(x.Lhs[0]), in.str(x.Rhs[0])
+					if strings.HasSuffix(l, ".searchCancel") {
+						if in.cancels[r] {
+							out = append(out, ev{kind: "storeCancel"})
+						} else {
+							out = append(out, ev{kind: "other", arg: in.str(x)})
+						}
+						handled = true
+					} else if in.cancels[r] || in.ctxs[r] {
+						// an alias of the cancel function / the context
+						if in.cancels[r] {
+							in.cancels[l] = true
+						} else {
+							in.ctxs[l] = true
+						}
+						handled = true
+					} else if id, ok := x.Lhs[0].(*ast.Ident); ok {
+						in.locals[id.Name] = x.Rhs[0]
+					}
+				}
+			}
+			if !handled && in.relevantText(in.str(x)) {
+				out = append(out, ev{kind: "other", arg: in.str(x)})
+			}
+		case *ast.ReturnStmt:
+			if in.relevantText(in.str(x)) {
+				out = append(out, ev{kind: "other", arg: in.str(x)})
+			}
+			out = append(out, ev{kind: "ret"})
+		case *ast.GoStmt:
+			var sub []ev
+			if fl, ok := x.Call.Fun.(*ast.FuncLit); ok {
+				saveL := in.locals
+				in.locals = map[string]ast.Expr{}
+				sub = in.walk(fl.Body.List, true)
+				in.locals = saveL
+			} else if fd := in.localCallee(x.Call); fd != nil {
+				sub = in.inline(x.Call, fd)
+			} else {
+				sub = []ev{{kind: "other", arg: in.str(x)}}
+			}
+			out = append(out, ev{kind: "spawn", sub: sub})
+		case *ast.IfStmt:
+			if x.Init != nil && in.relevantText(in.str(x.Init)) {
+				out = append(out, ev{kind: "other", arg: in.str(x.Init)})
+			}
+			body := in.walk(x.Body.List, false)
+			var els []ev
+			if x.Else != nil {
+				if eb, ok := x.Else.(*ast.BlockStmt); ok {
+					els = in.walk(eb.List, false)
+				} else {
+					els = in.walk([]ast.Stmt{x.Else}, false)
+				}
+			}
+			condRelevant := in.condTouchesState(x.Cond)
+			switch {
+			case x.Else == nil && endsWithReturn(body) && !hasRelevant(body):
+				// `if c { print…; return }`
+				if condRelevant || top {
+					out = append(out, ev{kind: "guard", arg: in.truthTable(x.Cond, false)})
+				}
+			case x.Else == nil && top && last && hasRelevant(body) && !endsWithReturn(body):
+				// trailing `if c { rest }` is `if !c { return }; rest`
+				out = append(out, ev{kind: "guard", arg: in.truthTable(x.Cond, true)})
+				out = append(out, body...)
+			case !hasRelevant(body) && !hasRelevant(els):
+				// prints only
+			default:
+				out = append(out, ev{kind: "nested", arg: in.str(x.Cond), sub: append(body, els...)})
+			}
+		case *ast.BlockStmt:
+			out = append(out, in.walk(x.List, top)...)
+		case *ast.SwitchStmt, *ast.TypeSwitchStmt, *ast.ForStmt, *ast.RangeStmt, *ast.SelectStmt:
+			if sw, ok := st.(*ast.SwitchStmt); ok {
+				if tt, ok := in.switchGuard(sw); ok {
+					if tt != "" {
+						out = append(out, ev{kind: "guard", arg: tt})
+					}
+					continue
+				}
+			}
+			var sub []ev
+			ast.Inspect(x, func(n ast.Node) bool {
+				if cc, ok := n.(*ast.CaseClause); ok {
+					sub = append(sub, in.walk(cc.Body, false)...)
+					return false
+				}
+				if cc, ok := n.(*ast.CommClause); ok {
+					sub = append(sub, in.walk(cc.Body, false)...)
+					return false
+				}
+				if b, ok := n.(*ast.BlockStmt); ok && n != ast.Node(x) {
+					if _, isSw := st.(*ast.SwitchStmt); !isSw {
+						sub = append(sub, in.walk(b.List, false)...)
+						return false
+					}
+				}
+				return true
+			})
+			if hasRelevant(sub) {
+				var keep []ev
+				for _, e := range sub {
+					if e.kind != "ret" && e.kind != "print" {
+						keep = append(keep, e)
+					}
+				}
+				out = append(out, ev{kind: "nested", sub: keep})
+			}
+		default:
+			if in.relevantText(in.str(st)) {
+				out = append(out, ev{kind: "other", arg: in.str(st)})
+			}
+		}
 	}
 	return out
 }
 
-func indexOf(ss []string, pred func(string) bool) int {
-	for i, s := range ss {
-		if pred(s) {
+// ---- guard conditions: truth table over (flag value, g.search == nil) ------------------------------------------------
+
+type absEnv struct {
+	state     string
+	searchNil bool
+}
+
+type val struct {
+	kind string // state nil ptr bool
+	s    string
+	b    bool
+}
+
+func (in *interp) condTouchesState(e ast.Expr) bool {
+	s := in.str(e)
+	if strings.Contains(s, ".state.Get()") || strings.Contains(s, ".search") {
+		return true
+	}
+	touch := false
+	ast.Inspect(e, func(n ast.Node) bool {
+		if c, ok := n.(*ast.CallExpr); ok {
+			if fd := in.localCallee(c); fd != nil && strings.Contains(in.str(fd.Body), ".state.Get()") {
+				touch = true
+			}
+		}
+		if id, ok := n.(*ast.Ident); ok {
+			if le, ok := in.locals[id.Name]; ok && strings.Contains(in.str(le), ".state.Get()") {
+				touch = true
+			}
+		}
+		return true
+	})
+	return touch
+}
+
+func (in *interp) evalVal(e ast.Expr, env absEnv, locals map[string]ast.Expr, depth int) (val, bool) {
+	if depth > 8 {
+		return val{}, false
+	}
+	switch x := e.(type) {
+	case *ast.ParenExpr:
+		return in.evalVal(x.X, env, locals, depth)
+	case *ast.Ident:
+		switch x.Name {
+		case "nil":
+			return val{kind: "nil"}, true
+		case "true":
+			return val{kind: "bool", b: true}, true
+		case "false":
+			return val{kind: "bool", b: false}, true
+		}
+		if le, ok := locals[x.Name]; ok {
+			return in.evalVal(le, env, locals, depth+1)
+		}
+		for _, s := range in.states {
+			if s == x.Name {
+				return val{kind: "state", s: s}, true
+			}
+		}
+		return val{}, false
+	case *ast.SelectorExpr:
+		s := in.str(x)
+		if strings.HasPrefix(s, "state.") {
+			return val{kind: "state", s: x.Sel.Name}, true
+		}
+		if strings.HasSuffix(s, ".search") {
+			if env.searchNil {
+				return val{kind: "nil"}, true
+			}
+			return val{kind: "ptr"}, true
+		}
+		return val{}, false
+	case *ast.CallExpr:
+		s := in.str(x.Fun)
+		if strings.HasSuffix(s, ".state.Get") {
+			return val{kind: "state", s: env.state}, true
+		}
+		if fd := in.localCallee(x); fd != nil && len(x.Args) == 0 {
+			return in.evalFunc(fd.Body.List, env, map[string]ast.Expr{}, depth+1)
+		}
+		return val{}, false
+	case *ast.UnaryExpr:
+		if x.Op == token.NOT {
+			v, ok := in.evalVal(x.X, env, locals, depth)
+			if !ok || v.kind != "bool" {
+				return val{}, false
+			}
+			return val{kind: "bool", b: !v.b}, true
+		}
+	case *ast.BinaryExpr:
+		a, ok1 := in.evalVal(x.X, env, locals, depth)
+		if !ok1 {
+			return val{}, false
+		}
+		switch x.Op {
+		case token.LAND:
+			if a.kind != "bool" {
+				return val{}, false
+			}
+			if !a.b {
+				return a, true
+			}
+			return in.evalVal(x.Y, env, locals, depth)
+		case token.LOR:
+			if a.kind != "bool" {
+				return val{}, false
+			}
+			if a.b {
+				return a, true
+			}
+			return in.evalVal(x.Y, env, locals, depth)
+		case token.EQL, token.NEQ:
+			b, ok2 := in.evalVal(x.Y, env, locals, depth)
+			if !ok2 {
+				return val{}, false
+			}
+			eq := false
+			switch {
+			case a.kind == "state" && b.kind == "state":
+				eq = a.s == b.s
+			case (a.kind == "nil" || a.kind == "ptr") && (b.kind == "nil" || b.kind == "ptr"):
+				eq = a.kind == b.kind
+			case a.kind == "bool" && b.kind == "bool":
+				eq = a.b == b.b
+			default:
+				return val{}, false
+			}
+			if x.Op == token.NEQ {
+				eq = !eq
+			}
+			return val{kind: "bool", b: eq}, true
+		}
+	}
+	return val{}, false
+}
+
+// evalFunc: a parameterless helper made of local definitions, `if c { return e }` and `return e`
+func (in *interp) evalFunc(list []ast.Stmt, env absEnv, locals map[string]ast.Expr, depth int) (val, bool) {
+	for _, st := range list {
+		switch x := st.(type) {
+		case *ast.AssignStmt:
+			if len(x.Lhs) == 1 && len(x.Rhs) == 1 {
+				if id, ok := x.Lhs[0].(*ast.Ident); ok {
+					locals[id.Name] = x.Rhs[0]
+					continue
+				}
+			}
+			return val{}, false
+		case *ast.IfStmt:
+			if x.Init != nil {
+				return val{}, false
+			}
+			c, ok := in.evalVal(x.Cond, env, locals, depth)
+			if !ok || c.kind != "bool" {
+				return val{}, false
+			}
+			if c.b {
+				return in.evalFunc(x.Body.List, env, locals, depth)
+			}
+			if x.Else != nil {
+				if eb, ok := x.Else.(*ast.BlockStmt); ok {
+					return in.evalFunc(eb.List, env, locals, depth)
+				}
+				return in.evalFunc([]ast.Stmt{x.Else}, env, locals, depth)
+			}
+		case *ast.ReturnStmt:
+			if len(x.Results) != 1 {
+				return val{}, false
+			}
+			return in.evalVal(x.Results[0], env, locals, depth)
+		case *ast.SwitchStmt:
+			if x.Init != nil {
+				return val{}, false
+			}
+			matched := false
+			var def []ast.Stmt
+			for _, c := range x.Body.List {
+				cc := c.(*ast.CaseClause)
+				if cc.List == nil {
+					def = cc.Body
+					continue
+				}
+				for _, ce := range cc.List {
+					var cond ast.Expr = ce
+					if x.Tag != nil {
+						cond = &ast.BinaryExpr{X: x.Tag, Op: token.EQL, Y: ce}
+					}
+					v, ok := in.evalVal(cond, env, locals, depth)
+					if !ok || v.kind != "bool" {
+						return val{}, false
+					}
+					if v.b {
+						matched = true
+					}
+				}
+				if matched {
+					r, ok := in.evalFunc(cc.Body, env, locals, depth)
+					if ok {
+						return r, true
+					}
+					return val{}, false
+				}
+			}
+			if def != nil {
+				if r, ok := in.evalFunc(def, env, locals, depth); ok {
+					return r, true
+				}
+			}
+		default:
+			return val{}, false
+		}
+	}
+	return val{}, false
+}
+
+// switchGuard: a switch all of whose case bodies only print (and possibly return) is a guard: the handler is left in the
+// abstract states whose first matching case ends with return.  ok=false when a body touches the protocol state.
+func (in *interp) switchGuard(x *ast.SwitchStmt) (string, bool) {
+	locals := map[string]ast.Expr{}
+	for k, v := range in.locals {
+		locals[k] = v
+	}
+	if x.Init != nil {
+		as, ok := x.Init.(*ast.AssignStmt)
+		if !ok || len(as.Lhs) != 1 || len(as.Rhs) != 1 {
+			return "", false
+		}
+		id, ok := as.Lhs[0].(*ast.Ident)
+		if !ok {
+			return "", false
+		}
+		locals[id.Name] = as.Rhs[0]
+	}
+	type clause struct {
+		conds []ast.Expr
+		exits bool
+		def   bool
+	}
+	var cls []clause
+	anyExit, touches := false, false
+	for _, c := range x.Body.List {
+		cc := c.(*ast.CaseClause)
+		body := in.walk(cc.Body, false)
+		if hasRelevant(body) {
+			return "", false
+		}
+		cl := clause{exits: endsWithReturn(body), def: cc.List == nil}
+		for _, e := range cc.List {
+			var cond ast.Expr = e
+			if x.Tag != nil {
+				cond = &ast.BinaryExpr{X: x.Tag, Op: token.EQL, Y: e}
+			}
+			cl.conds = append(cl.conds, cond)
+			saved := in.locals
+			in.locals = locals
+			if in.condTouchesState(cond) {
+				touches = true
+			}
+			in.locals = saved
+		}
+		anyExit = anyExit || cl.exits
+		cls = append(cls, cl)
+	}
+	if !anyExit || !touches {
+		return "", true // prints only, or a guard on something else than the protocol state (argument checks)
+	}
+	var parts []string
+	for _, s := range in.states {
+		for _, sn := range []bool{false, true} {
+			res, decided := false, false
+			var def *clause
+			for i := range cls {
+				if cls[i].def {
+					def = &cls[i]
+					continue
+				}
+				for _, cond := range cls[i].conds {
+					v, ok := in.evalVal(cond, absEnv{s, sn}, locals, 0)
+					if !ok || v.kind != "bool" {
+						return "?" + in.str(cond), true
+					}
+					if v.b && !decided {
+						res, decided = cls[i].exits, true
+					}
+				}
+			}
+			if !decided && def != nil {
+				res = def.exits
+			}
+			parts = append(parts, fmt.Sprintf("%s/%v:%v", s, sn, res))
+		}
+	}
+	return strings.Join(parts, ","), true
+}
+
+// truthTable: for which abstract states the guard leaves the handler ("1" = returns early)
+func (in *interp) truthTable(cond ast.Expr, negate bool) string {
+	var parts []string
+	for _, s := range in.states {
+		for _, sn := range []bool{false, true} {
+			v, ok := in.evalVal(cond, absEnv{s, sn}, in.locals, 0)
+			if !ok || v.kind != "bool" {
+				return "?" + in.str(cond)
+			}
+			b := v.b != negate
+			parts = append(parts, fmt.Sprintf("%s/%v:%v", s, sn, b))
+		}
+	}
+	return strings.Join(parts, ",")
+}
+
+func (in *interp) table(f func(state string, searchNil bool) bool) string {
+	var parts []string
+	for _, s := range in.states {
+		for _, sn := range []bool{false, true} {
+			parts = append(parts, fmt.Sprintf("%s/%v:%v", s, sn, f(s, sn)))
+		}
+	}
+	return strings.Join(parts, ",")
+}
+
+func newInterp(p *pkgSrc, states []string) *interp {
+	return &interp{p: p, states: states, cancels: map[string]bool{"g.searchCancel": true}, ctxs: map[string]bool{}, locals: map[string]ast.Expr{}}
+}
+
+func (in *interp) handler(name string) ([]ev, bool) {
+	fd := in.p.funcs[name]
+	if fd == nil {
+		return nil, false
+	}
+	in.cancels = map[string]bool{"g.searchCancel": true}
+	in.ctxs = map[string]bool{}
+	in.locals = map[string]ast.Expr{}
+	return in.walk(fd.Body.List, true), true
+}
+
+func kinds(evs []ev) []string {
+	var out []string
+	for _, e := range evs {
+		if e.kind == "print" || e.kind == "ret" {
+			continue
+		}
+		out = append(out, e.kind)
+	}
+	return out
+}
+
+func find(evs []ev, kind, arg string) int {
+	for i, e := range evs {
+		if e.kind == kind && (arg == "" || e.arg == arg) {
 			return i
 		}
 	}
 	return -1
 }
 
+func count(evs []ev, kind string) int {
+	n := 0
+	for _, e := range evs {
+		if e.kind == kind {
+			n++
+		}
+		n += count(e.sub, kind)
+	}
+	return n
+}
+
+func noneOf(evs []ev, kinds ...string) bool {
+	for _, e := range evs {
+		for _, k := range kinds {
+			if e.kind == k {
+				return false
+			}
+		}
+	}
+	return true
+}
+
+func evsStr(evs []ev) string {
+	var parts []string
+	for _, e := range evs {
+		parts = append(parts, e.String())
+	}
+	return strings.Join(parts, " ")
+}
+
 func uciFacts() ([]string, []bool, string) {
 	fset := token.NewFileSet()
-	input := parseFile(fset, "pkg/uci/input.go")
-	gm := parseFile(fset, "pkg/uci/game/game.go")
-	sr := parseFile(fset, "pkg/search/search.go")
+	states := stateNames(fset)
+	uci := loadPkg(fset, "pkg/uci")
+	gm := loadPkg(fset, "pkg/uci/game")
+	sr := loadPkg(fset, "pkg/search")
 	var names []string
 	var vals []bool
 	var src strings.Builder
 	add := func(n string, v bool) { names = append(names, n); vals = append(vals, v) }
 
-	// 1. `go` is handled synchronously by the reader
+	// 1. `go` is handled synchronously by the reader: handleInput (with its helpers inlined) calls g.StartSearch outside any
+	// go statement / function literal, exactly once
 	goSync := false
-	if hi := findFunc(input, "handleInput"); hi != nil {
-		ast.Inspect(hi, func(n ast.Node) bool {
-			cc, ok := n.(*ast.CaseClause)
-			if !ok || len(cc.List) != 1 {
+	if hi := uci.funcs["handleInput"]; hi != nil {
+		var visit func(n ast.Node, async bool, depth int) (syncCalls, asyncCalls int)
+		visit = func(n ast.Node, async bool, depth int) (int, int) {
+			sc, ac := 0, 0
+			ast.Inspect(n, func(m ast.Node) bool {
+				switch y := m.(type) {
+				case *ast.GoStmt:
+					a, b := visit(y.Call, true, depth)
+					sc, ac = sc+a, ac+b
+					return false
+				case *ast.FuncLit:
+					a, b := visit(y.Body, true, depth)
+					sc, ac = sc+a, ac+b
+					return false
+				case *ast.CallExpr:
+					f := nodeStr(fset, y.Fun)
+					if strings.HasSuffix(f, ".StartSearch") {
+						if async {
+							ac++
+						} else {
+							sc++
+						}
+					} else if id, ok := y.Fun.(*ast.Ident); ok && depth < 4 {
+						if fd := uci.funcs[id.Name]; fd != nil && id.Name != "handleInput" {
+							a, b := visit(fd.Body, async, depth+1)
+							sc, ac = sc+a, ac+b
+						}
+					}
+				}
 				return true
-			}
-			if nodeStr(fset, cc.List[0]) == `"go"` {
-				goSync = len(cc.Body) == 1 && nodeStr(fset, cc.Body[0]) == "g.StartSearch(tokens)"
-			}
-			return true
-		})
-		src.WriteString(nodeStr(fset, hi) + "\n")
+			})
+			return sc, ac
+		}
+		s, a := visit(hi.Body, false, 0)
+		goSync = s >= 1 && a == 0
+		src.WriteString(fmt.Sprintf("handleInput: sync StartSearch calls %d, async %d\n", s, a))
 	}
 	add("goHandledSynchronously", goSync)
 
-	lockOK := func(ss []string) bool {
-		return len(ss) >= 2 && ss[0] == "g.isWorking.Lock()" && ss[1] == "defer g.isWorking.Unlock()"
+	in := newInterp(gm, states)
+	lockOK := func(evs []ev) bool {
+		k := kinds(evs)
+		return len(k) >= 2 && k[0] == "lock" && k[1] == "deferUnlock" && count(evs, "lock") == 1 && count(evs, "unlock") == 0 && count(evs, "deferUnlock") == 1
 	}
-	start := findFunc(gm, "StartSearch")
-	ss := stmts(fset, start)
-	add("startSearchHoldsLock", lockOK(ss))
-	add("startSearchGuard", len(ss) > 2 && strings.HasPrefix(ss[2], "if g.state.Get() != state.POSITION_SET || g.search == nil {") && strings.HasSuffix(ss[2], "return }"))
-	iRun := indexOf(ss, func(s string) bool { return s == "g.state.Set(state.RUNNING)" })
-	iGo := indexOf(ss, func(s string) bool { return strings.HasPrefix(s, "go func()") })
-	iCancel := indexOf(ss, func(s string) bool { return s == "g.searchCancel = cancel" })
-	iCtx := indexOf(ss, func(s string) bool { return s == "ctx, cancel := context.WithCancel(context.Background())" })
-	add("runningSetBeforeSpawn", iRun >= 0 && iGo >= 0 && iRun < iGo)
-	add("cancelStoredBeforeSpawn", iCtx >= 0 && iCancel > iCtx && iGo > iCancel)
-	// inside the goroutine
-	idleBeforePrint, deferCancel, searchUsesCtx := false, false, false
-	if start != nil && iGo >= 0 {
-		if gs, ok := start.Body.List[iGo].(*ast.GoStmt); ok {
-			if fl, ok := gs.Call.Fun.(*ast.FuncLit); ok {
-				var bs []string
-				for _, s := range fl.Body.List {
-					bs = append(bs, nodeStr(fset, s))
-				}
-				iIdle := indexOf(bs, func(s string) bool { return s == "g.state.Set(state.IDLE)" })
-				iPrint := indexOf(bs, func(s string) bool { return strings.Contains(s, `"bestmove %v\n"`) })
-				iSearch := indexOf(bs, func(s string) bool { return strings.Contains(s, "g.search.Search(ctx, gp)") })
-				idleBeforePrint = iIdle >= 0 && iPrint >= 0 && iIdle < iPrint && iSearch >= 0 && iSearch < iIdle
-				deferCancel = len(bs) > 0 && bs[0] == "defer cancel()"
-				searchUsesCtx = iSearch >= 0
-				// nothing else touches the flag
-				for i, s := range bs {
-					if i != iIdle && strings.Contains(s, "g.state.Set") {
-						idleBeforePrint = false
-					}
-				}
+	strip := func(evs []ev) []ev { // without prints and returns
+		var out []ev
+		for _, e := range evs {
+			if e.kind != "print" && e.kind != "ret" {
+				out = append(out, e)
 			}
 		}
+		return out
+	}
+
+	ssAll, _ := in.handler("StartSearch")
+	ss := strip(ssAll)
+	src.WriteString("StartSearch: " + evsStr(ss) + "\n")
+	add("startSearchHoldsLock", lockOK(ss))
+	wantStart := in.table(func(s string, sn bool) bool { return s != "POSITION_SET" || sn })
+	add("startSearchGuard", len(ss) > 2 && ss[2].kind == "guard" && ss[2].arg == wantStart)
+	iRun, iGo, iCancel, iCtx := find(ss, "set", "RUNNING"), find(ss, "spawn", ""), find(ss, "storeCancel", ""), find(ss, "mkctx", "")
+	structured := noneOf(ss, "other", "nested") && count(ss, "spawn") == 1
+	add("runningSetBeforeSpawn", structured && iRun >= 0 && iGo >= 0 && iRun < iGo && iRun > 2)
+	add("cancelStoredBeforeSpawn", structured && iCtx >= 0 && iCancel > iCtx && iGo > iCancel && ss[iCtx].arg == "context.Background()")
+	idleBeforePrint, deferCancel, searchUsesCtx := false, false, false
+	if iGo >= 0 {
+		bs := strip(ss[iGo].sub)
+		iIdle, iPrint, iSearch := find(bs, "set", "IDLE"), find(bs, "printBest", ""), find(bs, "search", "")
+		idleBeforePrint = noneOf(bs, "other", "nested", "spawn", "guard") && iIdle >= 0 && iPrint >= 0 && iIdle < iPrint && iSearch >= 0 && iSearch < iIdle &&
+			count(bs, "set") == 1 && count(bs, "printBest") == 1
+		deferCancel = len(bs) > 0 && bs[0].kind == "deferCancel"
+		searchUsesCtx = iSearch >= 0 && bs[iSearch].arg == "ctx"
 	}
 	add("idleSetBeforeBestmovePrinted", idleBeforePrint)
 	add("goroutineDefersCancel", deferCancel)
 	add("searchGetsCancellableCtx", searchUsesCtx)
 	nSet := 0
-	for _, s := range ss {
-		if strings.Contains(s, "g.state.Set") && !strings.HasPrefix(s, "go func()") {
+	for _, e := range ss {
+		if e.kind == "set" {
 			nSet++
+		}
+		if e.kind == "nested" || e.kind == "guard" {
+			nSet += count(e.sub, "set")
 		}
 	}
 	add("startSearchSetsFlagOnce", nSet == 1)
-	src.WriteString(nodeStr(fset, start) + "\n")
 
-	stop := findFunc(gm, "StopSearch")
-	ts := stmts(fset, stop)
-	add("stopSearchExact", len(ts) == 4 && lockOK(ts) && ts[2] == "if g.state.Get() != state.RUNNING { return }" && ts[3] == "g.searchCancel()")
-	src.WriteString(nodeStr(fset, stop) + "\n")
+	tsAll, _ := in.handler("StopSearch")
+	ts := strip(tsAll)
+	src.WriteString("StopSearch: " + evsStr(ts) + "\n")
+	wantStop := in.table(func(s string, sn bool) bool { return s != "RUNNING" })
+	add("stopSearchExact", len(ts) == 4 && lockOK(ts) && ts[2].kind == "guard" && ts[2].arg == wantStop && ts[3].kind == "callCancel")
 
-	ready := findFunc(gm, "IsReady")
-	rs := stmts(fset, ready)
-	add("isReadyExact", len(rs) == 3 && lockOK(rs) && rs[2] == `fmt.Println("readyok")`)
+	rsAll, _ := in.handler("IsReady")
+	rs := strip(rsAll)
+	src.WriteString("IsReady: " + evsStr(rs) + "\n")
+	add("isReadyExact", len(rs) == 3 && lockOK(rs) && rs[2].kind == "printReady")
 
-	np := findFunc(gm, "NewPosition")
-	ns := stmts(fset, np)
+	nsAll, _ := in.handler("NewPosition")
+	ns := strip(nsAll)
+	src.WriteString("NewPosition: " + evsStr(ns) + "\n")
 	add("newPositionHoldsLock", lockOK(ns))
-	add("newPositionGuard", len(ns) > 2 && strings.HasPrefix(ns[2], "if g.state.Get() == state.RUNNING {") && strings.HasSuffix(ns[2], "return }"))
+	wantPos := in.table(func(s string, sn bool) bool { return s == "RUNNING" })
+	add("newPositionGuard", len(ns) > 2 && ns[2].kind == "guard" && ns[2].arg == wantPos)
 	okSets := true
-	if np != nil {
-		ast.Inspect(np, func(n ast.Node) bool {
-			if ce, ok := n.(*ast.CallExpr); ok {
-				s := nodeStr(fset, ce)
-				if strings.HasPrefix(s, "g.state.Set(") && s != "g.state.Set(state.POSITION_SET)" {
-					okSets = false
-				}
+	var chk func(evs []ev)
+	chk = func(evs []ev) {
+		for _, e := range evs {
+			if (e.kind == "set" && e.arg != "POSITION_SET") || e.kind == "other" || e.kind == "spawn" || e.kind == "callCancel" || e.kind == "storeCancel" {
+				okSets = false
 			}
-			return true
-		})
+			chk(e.sub)
+		}
 	}
-	add("newPositionOnlySetsPositionSet", okSets)
+	chk(ns)
+	add("newPositionOnlySetsPositionSet", okSets && len(ns) > 0)
 
 	// search side: the context polled by the search is the caller's (or a child of it)
-	cf := findFunc(sr, "contextFromSearchParameter")
-	cs := stmts(fset, cf)
-	add("infinitePassesCtxThrough", indexOf(cs, func(s string) bool {
-		return s == "if sp.Infinite { return ctx, func() { } }" || s == "if sp.Infinite { return ctx, func() {} }"
-	}) >= 0)
-	add("timeoutIsChildOfCallerCtx", indexOf(cs, func(s string) bool {
-		return s == "return context.WithTimeout(ctx, time.Duration(movetime)*time.Millisecond)"
-	}) >= 0)
-	sf := findFunc(sr, "Search")
-	fs := stmts(fset, sf)
-	add("searchInstallsDerivedCtx", indexOf(fs, func(s string) bool { return s == "ctx, cancel := s.contextFromSearchParameter(ctx, sp)" }) >= 0 &&
-		indexOf(fs, func(s string) bool { return s == "s.ctx = ctx" }) >= 0)
-	src.WriteString(nodeStr(fset, cf) + "\n")
+	infThrough, child := false, false
+	if cf := sr.funcs["contextFromSearchParameter"]; cf != nil {
+		ctxName := ""
+		for _, fl := range cf.Type.Params.List {
+			if nodeStr(fset, fl.Type) == "context.Context" && len(fl.Names) > 0 {
+				ctxName = fl.Names[0].Name
+			}
+		}
+		allDerived, nRet := true, 0
+		var scan func(list []ast.Stmt, underInfinite bool)
+		scan = func(list []ast.Stmt, underInfinite bool) {
+			for _, st := range list {
+				switch x := st.(type) {
+				case *ast.ReturnStmt:
+					nRet++
+					if len(x.Results) < 1 {
+						allDerived = false
+						continue
+					}
+					r := nodeStr(fset, x.Results[0])
+					if c, ok := x.Results[0].(*ast.CallExpr); ok {
+						f := nodeStr(fset, c.Fun)
+						if strings.HasPrefix(f, "context.With") && len(c.Args) > 0 && nodeStr(fset, c.Args[0]) == ctxName {
+							if strings.HasPrefix(f, "context.WithTimeout") || strings.HasPrefix(f, "context.WithDeadline") {
+								child = true
+							}
+							continue
+						}
+						allDerived = false
+						continue
+					}
+					if r == ctxName {
+						if underInfinite {
+							infThrough = true
+						}
+						continue
+					}
+					allDerived = false
+				case *ast.IfStmt:
+					inf := underInfinite || strings.Contains(nodeStr(fset, x.Cond), ".Infinite")
+					scan(x.Body.List, inf)
+					if x.Else != nil {
+						if eb, ok := x.Else.(*ast.BlockStmt); ok {
+							scan(eb.List, underInfinite)
+						} else {
+							scan([]ast.Stmt{x.Else}, underInfinite)
+						}
+					}
+				case *ast.BlockStmt:
+					scan(x.List, underInfinite)
+				case *ast.SwitchStmt:
+					for _, c := range x.Body.List {
+						cc := c.(*ast.CaseClause)
+						inf := underInfinite
+						for _, e := range cc.List {
+							if strings.Contains(nodeStr(fset, e), ".Infinite") {
+								inf = true
+							}
+						}
+						scan(cc.Body, inf)
+					}
+				case *ast.AssignStmt:
+					for _, l := range x.Lhs {
+						if nodeStr(fset, l) == ctxName {
+							allDerived = false // the parameter is reassigned
+						}
+					}
+				}
+			}
+		}
+		scan(cf.Body.List, false)
+		infThrough = infThrough && allDerived
+		child = child && allDerived && nRet > 0
+		src.WriteString(fmt.Sprintf("contextFromSearchParameter: returns %d allDerived %v\n", nRet, allDerived))
+	}
+	add("infinitePassesCtxThrough", infThrough)
+	add("timeoutIsChildOfCallerCtx", child)
+	installs := false
+	if sf := sr.funcs["Search"]; sf != nil {
+		derived := map[string]bool{}
+		for _, st := range sf.Body.List {
+			as, ok := st.(*ast.AssignStmt)
+			if !ok || len(as.Rhs) != 1 {
+				continue
+			}
+			if c, ok := as.Rhs[0].(*ast.CallExpr); ok && strings.HasSuffix(nodeStr(fset, c.Fun), ".contextFromSearchParameter") &&
+				len(c.Args) > 0 && nodeStr(fset, c.Args[0]) == "ctx" && len(as.Lhs) >= 1 {
+				derived[nodeStr(fset, as.Lhs[0])] = true
+			}
+			if len(as.Lhs) == 1 && strings.HasSuffix(nodeStr(fset, as.Lhs[0]), ".ctx") && derived[nodeStr(fset, as.Rhs[0])] {
+				installs = true
+			}
+		}
+	}
+	add("searchInstallsDerivedCtx", installs)
 	return names, vals, src.String()
 }
 
